@@ -5,6 +5,7 @@ import (
 	"fmt"
 	"github.com/smart-core-os/sc-api/go/types"
 	"strings"
+	"time"
 
 	"google.golang.org/grpc/codes"
 
@@ -278,6 +279,12 @@ func shutResRun(w *World) {
 				k := t.W.Tape.Choose(8)
 				for i := 0; i < k; i++ {
 					t.Yield("wait")
+				}
+				if s.stopAfter > 0 && t.W.Tape.Flag(1, 4) {
+					// nobody notices for a while that the consumer has gone: long enough for a write that waits for its
+					// delivery to give up (a Value write does after five seconds), after which writing must go on as before
+					w.Fault("slow-cancel")
+					t.Sleep(6 * time.Second)
 				}
 				// Cancel at any moment from the start of the Pull call on. A PullID whose context is already cancelled while
 				// its inner subscription starts up makes the library choose randomly (select with two ready cases) whether
